@@ -1,1 +1,436 @@
+// Independent JLS decoder: written from include/jls/format.h (+ README); shares no code with /repo.
+// Where the specification is silent (serialisation of SOURCE_DEF / SIGNAL_DEF payloads) it follows src/writer.c.
 #include "specdec.h"
+#include <cstdarg>
+#include <cstdio>
+#include <cmath>
+#include <algorithm>
+
+namespace specdec {
+
+void Decoded::err(const char *cls, const char *fmt, ...) {
+    char b[400]; va_list ap; va_start(ap, fmt); vsnprintf(b, sizeof b, fmt, ap); va_end(ap);
+    if (errors.size() < 16) errors.push_back(std::string(cls) + "|" + b);
+}
+
+uint32_t crc32c(const uint8_t *p, size_t n) {
+    uint32_t crc = 0xFFFFFFFFu;
+    for (size_t i = 0; i < n; ++i) {
+        crc ^= p[i];
+        for (int k = 0; k < 8; ++k) crc = (crc >> 1) ^ (0x82F63B78u & (0u - (crc & 1u)));
+    }
+    return crc ^ 0xFFFFFFFFu;
+}
+
+static const uint8_t IDENT[16] = {0x6a, 0x6c, 0x73, 0x66, 0x6d, 0x74, 0x0d, 0x0a, 0x20, 0x0a, 0x20, 0x1a, 0x20, 0x20, 0xb2, 0x1c};
+static inline uint64_t rd64(const uint8_t *p) { uint64_t v; memcpy(&v, p, 8); return v; }
+static inline uint32_t rd32(const uint8_t *p) { uint32_t v; memcpy(&v, p, 4); return v; }
+static inline uint16_t rd16(const uint8_t *p) { uint16_t v; memcpy(&v, p, 2); return v; }
+
+static bool tag_known(uint8_t t) {
+    if (t == 0x01 || t == 0x02 || t == 0x40 || t == 0xff) return true;
+    if ((t & 0xe0) == 0x20 && (t & 7) <= 4) return true;
+    return false;
+}
+static inline bool is_track(uint8_t t) { return (t & 0xe0) == 0x20 && t != 0xff; }
+static inline int track_type(uint8_t t) { return (t >> 3) & 3; }
+static inline int track_chunk(uint8_t t) { return t & 7; }   // 0 def 1 head 2 data 3 index 4 summary
+
+static bool read_str(const uint8_t *p, size_t n, size_t &pos, std::string &out) {
+    size_t s = pos;
+    while (pos < n && p[pos] != 0) ++pos;
+    if (pos >= n) return false;
+    out.assign((const char *) p + s, pos - s);
+    ++pos;
+    if (pos < n && p[pos] == 0x1f) ++pos; else return false;
+    return true;
+}
+
+static void check_list(Decoded &d, const std::vector<size_t> &lst, const char *what) {
+    for (size_t i = 0; i < lst.size(); ++i) {
+        const Chunk &c = d.chunks[lst[i]];
+        uint64_t exp_prev = i ? d.chunks[lst[i - 1]].off : 0, exp_next = (i + 1 < lst.size()) ? d.chunks[lst[i + 1]].off : 0;
+        if (c.prev != exp_prev) d.err("list_prev", "%s: chunk @%llu item_prev=%llu expected %llu", what, (unsigned long long) c.off, (unsigned long long) c.prev, (unsigned long long) exp_prev);
+        if (c.next != exp_next) d.err("list_next", "%s: chunk @%llu item_next=%llu expected %llu", what, (unsigned long long) c.off, (unsigned long long) c.next, (unsigned long long) exp_next);
+    }
+}
+
+void decode(const std::vector<uint8_t> &f, Decoded &d, bool expect_closed) {
+    const uint8_t *b = f.data(); size_t n = f.size();
+    if (n < 32) { d.err("file_header", "file shorter than the file header (%zu bytes)", n); return; }
+    d.header_ok = true;
+    if (memcmp(b, IDENT, 16)) { d.err("file_header", "identification mismatch"); d.header_ok = false; }
+    d.hdr_length = rd64(b + 16); d.version = rd32(b + 24);
+    if (crc32c(b, 28) != rd32(b + 28)) { d.err("file_header", "header crc mismatch"); d.header_ok = false; }
+    if ((d.version >> 24) != 1) d.err("file_header", "unexpected major version %u", d.version >> 24);
+    if (expect_closed && d.hdr_length != n) d.err("file_length", "header length %llu != file size %zu", (unsigned long long) d.hdr_length, n);
+    // ---- forward walk
+    uint64_t off = 32; uint32_t prev_plen = 0; int n_end = 0;
+    while (off < n) {
+        if (off + 32 > n) { d.err("walk_truncated", "chunk header @%llu runs past the end of the file (%zu)", (unsigned long long) off, n); break; }
+        Chunk c; c.off = off;
+        c.next = rd64(b + off); c.prev = rd64(b + off + 8); c.tag = b[off + 16]; c.rsv = b[off + 17]; c.meta = rd16(b + off + 18);
+        c.plen = rd32(b + off + 20); c.pprev = rd32(b + off + 24); c.crc = rd32(b + off + 28);
+        c.hdr_ok = crc32c(b + off, 28) == c.crc;
+        if (!c.hdr_ok) { d.err("header_crc", "chunk header @%llu crc mismatch", (unsigned long long) off); break; }
+        if (off & 7) d.err("alignment", "chunk @%llu not 8-byte aligned", (unsigned long long) off);
+        if (c.rsv) d.err("reserved", "chunk @%llu reserved byte %u", (unsigned long long) off, c.rsv);
+        if (!tag_known(c.tag)) d.err("tag", "chunk @%llu unknown tag 0x%02x", (unsigned long long) off, c.tag);
+        if (c.pprev != prev_plen) d.err("payload_prev_length", "chunk @%llu payload_prev_length=%u, previous payload length=%u", (unsigned long long) off, c.pprev, prev_plen);
+        c.payload_off = off + 32;
+        uint64_t disk = 0;
+        if (c.plen) { uint32_t pad = (8 - ((c.plen + 4) & 7)) & 7; disk = (uint64_t) c.plen + pad + 4; }
+        c.end = off + 32 + disk;
+        if (c.end > n) { d.err("walk_truncated", "chunk @%llu (payload %u) runs past the end of the file (%zu)", (unsigned long long) off, c.plen, n); break; }
+        if (c.plen) {
+            uint32_t stored = rd32(b + c.end - 4);
+            c.payload_ok = crc32c(b + c.payload_off, c.plen) == stored;
+            if (!c.payload_ok) d.err("payload_crc", "chunk @%llu payload crc mismatch", (unsigned long long) off);
+            for (uint64_t p = c.payload_off + c.plen; p < c.end - 4; ++p) if (b[p]) { d.err("pad", "chunk @%llu pad byte non-zero", (unsigned long long) off); break; }
+        } else c.payload_ok = true;
+        if (is_track(c.tag) && track_chunk(c.tag) >= 2 && c.plen >= 16 && c.payload_ok) { c.ts = (int64_t) rd64(b + c.payload_off); c.entries = rd32(b + c.payload_off + 8); c.entry_bits = rd16(b + c.payload_off + 12); }
+        if (c.tag == 0xff) { ++n_end; if (c.plen) d.err("end_chunk", "END chunk has a payload"); }
+        d.by_off[off] = d.chunks.size();
+        d.chunks.push_back(c);
+        prev_plen = c.plen; off = c.end;
+    }
+    d.closed = n_end == 1 && !d.chunks.empty() && d.chunks.back().tag == 0xff && d.chunks.back().end == n;
+    if (expect_closed) {
+        if (n_end != 1) d.err("end_chunk", "%d END chunks", n_end);
+        else if (!d.closed) d.err("end_chunk", "END chunk is not the last chunk / file has trailing bytes");
+    }
+    // ---- backward walk using payload_prev_length
+    if (!d.chunks.empty() && d.errors.empty()) {
+        uint64_t pos = d.chunks.back().off; size_t idx = d.chunks.size() - 1;
+        while (idx > 0) {
+            uint32_t pp = d.chunks[idx].pprev; uint64_t disk = pp ? (uint64_t) pp + ((8 - ((pp + 4) & 7)) & 7) + 4 : 0;
+            if (pos < 32 + 32 + disk) { d.err("walk_back", "backward walk leaves the file at chunk @%llu", (unsigned long long) pos); break; }
+            pos -= 32 + disk; --idx;
+            if (pos != d.chunks[idx].off) { d.err("walk_back", "backward walk reaches %llu, expected chunk @%llu", (unsigned long long) pos, (unsigned long long) d.chunks[idx].off); break; }
+        }
+        if (idx == 0 && pos != 32) d.err("walk_back", "backward walk ends at %llu, not at 32", (unsigned long long) pos);
+    }
+    // ---- lists and definitions
+    std::vector<size_t> src_list, sig_list, user_list;
+    for (size_t i = 0; i < d.chunks.size(); ++i) {
+        const Chunk &c = d.chunks[i];
+        const uint8_t *p = b + c.payload_off;
+        if (c.tag == 0x01) {
+            src_list.push_back(i);
+            DSource s; s.id = c.meta; size_t pos = 64; bool ok = c.plen >= 64 && c.payload_ok;
+            for (size_t k = 0; ok && k < 64; ++k) if (p[k]) { d.err("source_def", "source %d reserved bytes non-zero", s.id); break; }
+            for (int k = 0; k < 5 && ok; ++k) ok = read_str(p, c.plen, pos, s.s[k]);
+            if (!ok) d.err("source_def", "source %d payload malformed", s.id); else if (pos != c.plen) d.err("source_def", "source %d payload has %zu trailing bytes", s.id, (size_t) c.plen - pos);
+            if (s.id > 255) d.err("source_def", "source id %d out of range", s.id);
+            if (d.sources.count(s.id)) d.err("source_def", "source %d defined twice", s.id);
+            d.sources[s.id] = s;
+        } else if (c.tag == 0x02) {
+            sig_list.push_back(i);
+            DSignal s; s.id = c.meta; s.def_chunk = i; memset(s.head_offsets, 0, sizeof s.head_offsets);
+            bool ok = c.plen >= 128 && c.payload_ok;
+            if (ok) {
+                s.src = rd16(p); s.sigtype = p[2]; s.dtype_code = rd32(p + 4); s.rate = rd32(p + 8); s.spd = rd32(p + 12); s.sdf = rd32(p + 16);
+                s.eps = rd32(p + 20); s.sumdf = rd32(p + 24); s.adf = rd32(p + 28); s.udf = rd32(p + 32);
+                if (p[3]) d.err("signal_def", "signal %d reserved byte non-zero", s.id);
+                for (size_t k = 36; k < 128; ++k) if (p[k]) { d.err("signal_def", "signal %d reserved bytes non-zero", s.id); break; }
+                size_t pos = 128; ok = read_str(p, c.plen, pos, s.name) && read_str(p, c.plen, pos, s.units);
+                if (ok && pos != c.plen) d.err("signal_def", "signal %d payload has trailing bytes", s.id);
+            }
+            if (!ok) d.err("signal_def", "signal %d payload malformed", s.id);
+            if (s.id > 255) d.err("signal_def", "signal id %d out of range", s.id);
+            if (d.signals.count(s.id)) d.err("signal_def", "signal %d defined twice", s.id);
+            d.signals[s.id] = s;
+        } else if (c.tag == 0x40) {
+            user_list.push_back(i);
+        } else if (is_track(c.tag)) {
+            int sig = c.meta & 0x0fff, lvl = c.meta >> 12, tt = track_type(c.tag), tc = track_chunk(c.tag);
+            auto it = d.signals.find(sig);
+            if (it == d.signals.end()) { d.err("track_meta", "chunk @%llu tag 0x%02x names undefined signal %d", (unsigned long long) c.off, c.tag, sig); continue; }
+            DSignal &s = it->second;
+            if (sig & 0x0f00) d.err("track_meta", "chunk @%llu reserved meta bits set", (unsigned long long) c.off);
+            if (tc == 0) { sig_list.push_back(i); if (c.plen) d.err("track_def", "track def with payload"); if (lvl) d.err("track_meta", "track def level %d", lvl); s.has_track_def[tt] = true; }
+            else if (tc == 1) {
+                sig_list.push_back(i);
+                if (c.plen != 128) d.err("track_head", "signal %d track %d head payload %u != 128", sig, tt, c.plen);
+                else if (c.payload_ok) { for (int k = 0; k < 16; ++k) s.head_offsets[tt][k] = rd64(p + 8 * k); }
+                if (s.has_head[tt]) d.err("track_head", "signal %d track %d has two heads", sig, tt);
+                s.has_head[tt] = true; s.head_chunk[tt] = i;
+            } else if (tc == 2) { if (lvl) d.err("track_meta", "data chunk @%llu level %d", (unsigned long long) c.off, lvl); s.data_chunks[tt].push_back(i); }
+            else if (tc == 3) { if (lvl < 1) d.err("track_meta", "index chunk @%llu level 0", (unsigned long long) c.off); s.levels[tt][lvl & 15].index_chunks.push_back(i);
+                if (i + 1 >= d.chunks.size() || d.chunks[i + 1].tag != (uint8_t) (c.tag + 1) || d.chunks[i + 1].meta != c.meta)
+                    d.err("index_summary_pair", "index chunk @%llu (signal %d level %d) is not immediately followed by its summary", (unsigned long long) c.off, sig, lvl);
+                else if (d.chunks[i + 1].plen >= 16 && d.chunks[i + 1].ts != c.ts) d.err("index_summary_pair", "index @%llu timestamp %lld != summary timestamp %lld", (unsigned long long) c.off, (long long) c.ts, (long long) d.chunks[i + 1].ts);
+            } else if (tc == 4) { s.levels[tt][lvl & 15].summary_chunks.push_back(i);
+                if (i == 0 || d.chunks[i - 1].tag != (uint8_t) (c.tag - 1) || d.chunks[i - 1].meta != c.meta) d.err("index_summary_pair", "summary chunk @%llu is not preceded by its index", (unsigned long long) c.off);
+            }
+        }
+    }
+    check_list(d, src_list, "source list");
+    check_list(d, sig_list, "signal list");
+    check_list(d, user_list, "user data list");
+    if (!user_list.empty()) {
+        for (size_t k = 0; k < user_list.size(); ++k) {
+            const Chunk &c = d.chunks[user_list[k]];
+            uint8_t st = (uint8_t) (c.meta >> 12);
+            if (k == 0) continue;      // first user-data chunk is the library's own empty marker
+            DUser u; u.meta = c.meta & 0x0fff; u.st = st; u.data.assign(b + c.payload_off, b + c.payload_off + c.plen);
+            d.users.push_back(u);
+            if (st < 1 || st > 3) d.err("user_data", "user data @%llu storage type %u", (unsigned long long) c.off, st);
+        }
+    }
+    // ---- per signal / track checks
+    for (auto &kv : d.signals) {
+        DSignal &s = kv.second;
+        int bits = (s.dtype_code >> 8) & 0xff;
+        if (!d.sources.count(s.src)) d.err("signal_def", "signal %d names undefined source %d", s.id, s.src);
+        if (s.sigtype == 0 && s.id != 0) {
+            // relations the format relies on (observed here; C16 itself is not claimed)
+            if (s.sdf < 10 || s.spd < 10 || s.eps < 10 || s.sumdf < 10) d.err("def_relation", "signal %d minimums: spd=%u sdf=%u eps=%u sumdf=%u", s.id, s.spd, s.sdf, s.eps, s.sumdf);
+            else {
+                if (((uint64_t) s.sdf * bits) % 8) d.err("def_relation", "signal %d: summary entry is not a whole number of bytes", s.id);
+                if (s.spd % s.sdf) d.err("def_relation", "signal %d: spd %u not a multiple of sdf %u", s.id, s.spd, s.sdf);
+                else if (s.eps % (s.spd / s.sdf)) d.err("def_relation", "signal %d: eps %u not a multiple of entries per block %u", s.id, s.eps, s.spd / s.sdf);
+                if (s.eps % s.sumdf) d.err("def_relation", "signal %d: eps %u not a multiple of sumdf %u", s.id, s.eps, s.sumdf);
+            }
+        }
+        for (int tt = 0; tt < 4; ++tt) {
+            bool expected = s.sigtype == 0 ? (tt == 0 || tt == 2 || tt == 3) : (tt == 1 || tt == 2);
+            if (expected && (!s.has_track_def[tt] || !s.has_head[tt]) && d.closed) d.err("track_def", "signal %d track %d: definition/head missing", s.id, tt);
+            char what[64];
+            snprintf(what, sizeof what, "signal %d track %d data list", s.id, tt); check_list(d, s.data_chunks[tt], what);
+            // head table
+            if (s.has_head[tt]) {
+                uint64_t exp0 = s.data_chunks[tt].empty() ? 0 : d.chunks[s.data_chunks[tt][0]].off;
+                if (s.head_offsets[tt][0] != exp0 && d.closed) d.err("track_head", "signal %d track %d head[0]=%llu expected %llu", s.id, tt, (unsigned long long) s.head_offsets[tt][0], (unsigned long long) exp0);
+                for (int L = 1; L < 16; ++L) {
+                    uint64_t e = s.levels[tt][L].index_chunks.empty() ? 0 : d.chunks[s.levels[tt][L].index_chunks[0]].off;
+                    if (s.head_offsets[tt][L] != e && d.closed) d.err("track_head", "signal %d track %d head[%d]=%llu expected %llu", s.id, tt, L, (unsigned long long) s.head_offsets[tt][L], (unsigned long long) e);
+                }
+            }
+            for (int L = 1; L < 16; ++L) {
+                DTrackLevel &lv = s.levels[tt][L];
+                snprintf(what, sizeof what, "signal %d track %d level %d index list", s.id, tt, L); check_list(d, lv.index_chunks, what);
+                snprintf(what, sizeof what, "signal %d track %d level %d summary list", s.id, tt, L); check_list(d, lv.summary_chunks, what);
+                for (size_t ic : lv.index_chunks) {
+                    const Chunk &c = d.chunks[ic]; const uint8_t *p = b + c.payload_off;
+                    if (!c.payload_ok || c.plen < 16) { d.err("index_payload", "index @%llu payload too short", (unsigned long long) c.off); continue; }
+                    if (tt == 0) {
+                        if (c.entry_bits != 64 || c.plen != 16 + 8ull * c.entries) { d.err("index_payload", "fsr index @%llu: entry_bits=%u entries=%u payload=%u", (unsigned long long) c.off, c.entry_bits, c.entries, c.plen); continue; }
+                        uint64_t step = s.spd;
+                        if (L >= 2) { step = (uint64_t) s.eps * s.sdf; for (int k = 2; k < L; ++k) step *= s.sumdf; }
+                        for (uint32_t k = 0; k < c.entries; ++k) {
+                            uint64_t o = rd64(p + 16 + 8 * k); int64_t want_ts = c.ts + (int64_t) (k * step);
+                            if (o == 0) { if (L != 1) d.err("index_entry", "fsr index @%llu level %d entry %u is 0", (unsigned long long) c.off, L, k); continue; }
+                            auto t = d.by_off.find(o);
+                            if (t == d.by_off.end()) { d.err("index_entry", "fsr index @%llu entry %u -> %llu is not a chunk", (unsigned long long) c.off, k, (unsigned long long) o); continue; }
+                            const Chunk &tc = d.chunks[t->second];
+                            uint8_t want_tag = L == 1 ? 0x22 : 0x23; uint16_t want_meta = (uint16_t) (s.id | ((L - 1) << 12));
+                            if (tc.tag != want_tag || tc.meta != want_meta || tc.ts != want_ts)
+                                d.err("index_entry", "fsr index @%llu level %d entry %u -> chunk @%llu tag 0x%02x meta 0x%04x ts %lld; expected tag 0x%02x meta 0x%04x ts %lld", (unsigned long long) c.off, L, k,
+                                      (unsigned long long) o, tc.tag, tc.meta, (long long) tc.ts, want_tag, want_meta, (long long) want_ts);
+                        }
+                    } else {
+                        if (c.entry_bits != 128 || c.plen != 16 + 16ull * c.entries) { d.err("index_payload", "ts index @%llu: entry_bits=%u entries=%u payload=%u", (unsigned long long) c.off, c.entry_bits, c.entries, c.plen); continue; }
+                        for (uint32_t k = 0; k < c.entries; ++k) {
+                            int64_t ets = (int64_t) rd64(p + 16 + 16 * k); uint64_t o = rd64(p + 24 + 16 * k);
+                            auto t = d.by_off.find(o);
+                            if (t == d.by_off.end()) { d.err("index_entry", "ts index @%llu entry %u -> %llu is not a chunk", (unsigned long long) c.off, k, (unsigned long long) o); continue; }
+                            const Chunk &tc = d.chunks[t->second];
+                            uint8_t want_tag = (uint8_t) (0x20 | (tt << 3) | (L == 1 ? 2 : 3)); uint16_t want_meta = (uint16_t) (s.id | ((L - 1) << 12));
+                            if (tc.tag != want_tag || tc.meta != want_meta || tc.ts != ets)
+                                d.err("index_entry", "ts index @%llu level %d entry %u (t=%lld) -> chunk @%llu tag 0x%02x meta 0x%04x ts %lld", (unsigned long long) c.off, L, k, (long long) ets, (unsigned long long) o, tc.tag, tc.meta, (long long) tc.ts);
+                        }
+                    }
+                }
+                for (size_t sc : lv.summary_chunks) {
+                    const Chunk &c = d.chunks[sc];
+                    if (!c.payload_ok || c.plen < 16) { d.err("summary_payload", "summary @%llu payload too short", (unsigned long long) c.off); continue; }
+                    if (tt == 0) {
+                        bool wide = false; uint32_t code = s.dtype_code & 0xffff;
+                        if (code == dt_code[DT_U32] || code == dt_code[DT_I32] || code == dt_code[DT_U64] || code == dt_code[DT_I64] || code == dt_code[DT_F64]) wide = true;
+                        uint32_t eb = wide ? 256 : 128;
+                        if (c.entry_bits != eb || c.plen != 16 + (uint64_t) c.entries * eb / 8) d.err("summary_payload", "fsr summary @%llu: entry_bits=%u entries=%u payload=%u (expected %u-bit entries)", (unsigned long long) c.off, c.entry_bits, c.entries, c.plen, eb);
+                    } else if (c.entry_bits != 128 || c.plen != 16 + 16ull * c.entries) d.err("summary_payload", "ts summary @%llu: entry_bits=%u entries=%u payload=%u", (unsigned long long) c.off, c.entry_bits, c.entries, c.plen);
+                }
+            }
+            // data chunk payload sizes
+            for (size_t dc : s.data_chunks[tt]) {
+                const Chunk &c = d.chunks[dc];
+                if (!c.payload_ok) continue;
+                if (tt == 0) {
+                    if (c.plen < 16 || c.entry_bits != bits || c.plen != 16 + ((uint64_t) c.entries * bits + 7) / 8) d.err("data_payload", "fsr data @%llu: entry_bits=%u entries=%u payload=%u (type %d bits)", (unsigned long long) c.off, c.entry_bits, c.entries, c.plen, bits);
+                    if (c.entries == 0 || c.entries > s.spd) d.err("data_payload", "fsr data @%llu: %u entries, block size %u", (unsigned long long) c.off, c.entries, s.spd);
+                } else if (tt == 3) {
+                    if (c.plen != 24 || c.entries != 1 || c.entry_bits != 64) d.err("data_payload", "utc data @%llu malformed", (unsigned long long) c.off);
+                } else if (tt == 2) {
+                    if (c.plen < 28) d.err("data_payload", "annotation data @%llu too short", (unsigned long long) c.off);
+                }
+            }
+        }
+    }
+}
+
+int max_fsr_level(const Decoded &d) {
+    int m = 0;
+    for (auto &kv : d.signals) for (int L = 1; L < 16; ++L) if (!kv.second.levels[0][L].index_chunks.empty()) m = std::max(m, L);
+    return m;
+}
+
+void regions(const Decoded &d, std::vector<Region> &out) {
+    out.push_back(Region{0, 32, 0, 0});
+    for (size_t i = 0; i < d.chunks.size(); ++i) {
+        const Chunk &c = d.chunks[i];
+        out.push_back(Region{c.off, c.off + 32, 1, i});
+        if (c.plen) out.push_back(Region{c.payload_off, c.end, 2, i});
+    }
+}
+
+// ---------------------------------------------------------------------------------------------- content
+static void cerr(std::vector<std::string> &e, const char *cls, const char *fmt, ...) __attribute__((format(printf, 3, 4)));
+static void cerr(std::vector<std::string> &e, const char *cls, const char *fmt, ...) {
+    char b[400]; va_list ap; va_start(ap, fmt); vsnprintf(b, sizeof b, fmt, ap); va_end(ap);
+    if (e.size() < 16) e.push_back(std::string(cls) + "|" + b);
+}
+
+void compare_with_model(const std::vector<uint8_t> &f, const Decoded &d, const Model &m, const ContentOpts &o, std::vector<std::string> &E) {
+    const uint8_t *b = f.data();
+    // ---- definitions
+    if (d.sources.size() != m.sources.size()) cerr(E, "content_sources", "%zu sources in file, %zu written", d.sources.size(), m.sources.size());
+    for (auto &kv : m.sources) {
+        auto it = d.sources.find(kv.first);
+        if (it == d.sources.end()) { cerr(E, "content_sources", "source %d missing", kv.first); continue; }
+        for (int k = 0; k < 5; ++k) if (it->second.s[k] != kv.second.s[k]) cerr(E, "content_sources", "source %d string %d differs", kv.first, k);
+    }
+    if (d.signals.size() != m.signals.size()) cerr(E, "content_signals", "%zu signals in file, %zu written", d.signals.size(), m.signals.size());
+    for (auto &kv : m.signals) {
+        const MSignal &ms = kv.second;
+        auto it = d.signals.find(kv.first);
+        if (it == d.signals.end()) { cerr(E, "content_signals", "signal %d missing", kv.first); continue; }
+        const DSignal &ds = it->second;
+        if (ds.src != ms.src || ds.sigtype != ms.sigtype || ds.dtype_code != dt_code[ms.dtype] || ds.rate != (ms.sigtype ? 0 : ms.p[0]) || ds.name != ms.name || ds.units != ms.units)
+            cerr(E, "content_signals", "signal %d definition differs", kv.first);
+        int bits = dt_bits[ms.dtype];
+        // ---- samples from DATA chunks
+        if (ms.sigtype == 0) {
+            int64_t covered_to = 0;     // in 0-based samples
+            std::vector<uint8_t> have((size_t) ms.length(), 0);
+            for (size_t dc : ds.data_chunks[0]) {
+                const Chunk &c = d.chunks[dc];
+                if (!c.payload_ok || c.plen < 16) continue;
+                int64_t rel = c.ts - ms.first_id;
+                if (!ms.has_data || rel < 0 || rel + (int64_t) c.entries > ms.length()) { cerr(E, "content_samples", "signal %d data chunk @%llu covers [%lld,+%u) outside the written span (first id %lld, %lld samples)", ms.id, (unsigned long long) c.off, (long long) c.ts, c.entries, (long long) ms.first_id, (long long) ms.length()); continue; }
+                std::vector<uint8_t> exp; ms.window(rel, c.entries, exp);
+                const uint8_t *p = b + c.payload_off + 16; size_t nb = (size_t) (((uint64_t) c.entries * bits + 7) / 8);
+                bool same = exp.size() == nb;
+                if (same) {
+                    if (((uint64_t) c.entries * bits) & 7) { same = memcmp(exp.data(), p, nb - 1) == 0 && ((exp[nb - 1] ^ p[nb - 1]) & ((1u << (((uint64_t) c.entries * bits) & 7)) - 1)) == 0; }
+                    else same = memcmp(exp.data(), p, nb) == 0;
+                }
+                if (!same) {
+                    // NaN fill of float gaps may differ in payload bits
+                    bool ok = dt_is_float(ms.dtype) && !ms.gaps.empty();
+                    if (ok) for (uint32_t i = 0; i < c.entries && ok; ++i) {
+                        uint64_t e = bits_get(exp.data(), i, bits), g = bits_get(p, i, bits);
+                        if (e != g) ok = ms.in_gap(rel + i) && std::isnan((double) raw_to_value(ms.dtype, g));
+                    }
+                    if (!ok) cerr(E, "content_samples", "signal %d data chunk @%llu [%lld,+%u) differs from the written samples", ms.id, (unsigned long long) c.off, (long long) c.ts, c.entries);
+                }
+                for (uint32_t i = 0; i < c.entries; ++i) have[(size_t) (rel + i)] = 1;
+                covered_to = std::max<int64_t>(covered_to, rel + c.entries);
+            }
+            // omitted blocks must be announced by a zero level-1 index entry
+            if (ds.spd) for (size_t ic : ds.levels[0][1].index_chunks) {
+                const Chunk &c = d.chunks[ic]; if (!c.payload_ok || c.plen < 16) continue;
+                // summary entries of this chunk tell how many samples the omitted blocks hold
+                size_t sumc = (d.by_off.count(c.end) ? d.by_off.at(c.end) : (size_t) -1);
+                uint64_t summarized = (sumc != (size_t) -1) ? (uint64_t) d.chunks[sumc].entries * ds.sdf : 0;
+                for (uint32_t k = 0; k < c.entries; ++k) {
+                    if (rd64(b + c.payload_off + 16 + 8 * k)) continue;
+                    int64_t rel = c.ts + (int64_t) k * ds.spd - ms.first_id;
+                    uint64_t blk_start = (uint64_t) k * ds.spd, blk_n = summarized > blk_start ? std::min<uint64_t>(ds.spd, summarized - blk_start) : 0;
+                    for (uint64_t i = 0; i < blk_n && rel + (int64_t) i < ms.length(); ++i) if (rel + (int64_t) i >= 0) have[(size_t) (rel + i)] = 2;
+                }
+            }
+            if (o.samples_must_be_complete) {
+                int64_t missing = -1; for (int64_t i = 0; i < ms.length(); ++i) if (!have[(size_t) i]) { missing = i; break; }
+                if (missing >= 0) cerr(E, "content_samples_missing", "signal %d (%s): sample %lld of %lld is neither in a data chunk nor in an omitted block covered by a summary", ms.id, dt_name[ms.dtype], (long long) missing, (long long) ms.length());
+            }
+            // ---- stored summaries recomputed from the written samples
+            bool can_sum = o.check_summaries && ms.dtype != DT_U24 && ms.dtype != DT_I24 && ds.sdf >= 1;
+            if (can_sum) for (int L = 1; L < 16; ++L) {
+                uint64_t step = ds.sdf; for (int k = 1; k < L; ++k) step *= ds.sumdf;
+                bool wide = dt_summary64(ms.dtype);
+                long double eps = wide ? ldexpl(1, -53) : ldexpl(1, -24);
+                for (size_t sc : ds.levels[0][L].summary_chunks) {
+                    const Chunk &c = d.chunks[sc]; if (!c.payload_ok || c.plen < 16) continue;
+                    uint32_t eb = wide ? 32 : 16; if (c.plen != 16 + (uint64_t) c.entries * eb) continue;
+                    for (uint32_t k = 0; k < c.entries; ++k) {
+                        double e4[4]; const uint8_t *p = b + c.payload_off + 16 + (uint64_t) k * eb;
+                        if (wide) memcpy(e4, p, 32); else { float f4[4]; memcpy(f4, p, 16); for (int q = 0; q < 4; ++q) e4[q] = f4[q]; }
+                        int64_t rel = c.ts + (int64_t) ((uint64_t) k * step) - ms.first_id;
+                        if (rel < 0 || rel + (int64_t) step > ms.length()) { cerr(E, "content_summary", "signal %d level %d summary @%llu entry %u covers samples outside the written span", ms.id, L, (unsigned long long) c.off, k); break; }
+                        // exact statistics over finite samples
+                        long double sum = 0, mn = INFINITY, mx = -INFINITY; int64_t cnt = 0;
+                        for (uint64_t i = 0; i < step; ++i) { long double v = ms.value(rel + (int64_t) i); if (!std::isfinite((double) v)) continue; sum += v; ++cnt; if (v < mn) mn = v; if (v > mx) mx = v; }
+                        if (cnt == 0) { if (!std::isnan(e4[0])) cerr(E, "content_summary", "signal %d level %d entry %u: all samples non-finite but mean=%g", ms.id, L, k, e4[0]); continue; }
+                        bool partial = cnt != (int64_t) step;
+                        long double mean = sum / cnt, ss = 0;
+                        for (uint64_t i = 0; i < step; ++i) { long double v = ms.value(rel + (int64_t) i); if (!std::isfinite((double) v)) continue; ss += (v - mean) * (v - mean); }
+                        long double sd_pop = sqrtl(ss / cnt), sd_smp = cnt > 1 ? sqrtl(ss / (cnt - 1)) : 0;
+                        long double mag = std::max(fabsl(mn), fabsl(mx));
+                        long double tol = (16 * eps + (long double) step * ldexpl(1, -52)) * mag + 1e-300L;
+                        auto st = [&](long double v) { return wide ? (long double) (double) v : (long double) (float) v; };
+                        bool bad = false;
+                        if (st(mn) != (long double) e4[2] || st(mx) != (long double) e4[3]) bad = true;
+                        // upper levels average entry means: with non-finite samples inside, entries are weighted equally -> only bounded
+                        if (!partial || L == 1) { if (fabsl((long double) e4[0] - mean) > tol) bad = true; }
+                        else if ((long double) e4[0] < st(mn) - tol || (long double) e4[0] > st(mx) + tol) bad = true;
+                        long double lo = sqrtl(0.9L) * std::min(sd_pop, sd_smp) * (1 - 16 * eps) - tol, hi = std::max(sd_pop, sd_smp) * (1 + 16 * eps) + tol;
+                        if (!partial && ((long double) e4[1] < lo || (long double) e4[1] > hi)) bad = true;
+                        if (bad) { cerr(E, "content_summary", "signal %d (%s) level %d summary @%llu entry %u [%lld,+%llu): stored mean=%.17g std=%.17g min=%.17g max=%.17g; written samples give mean=%.17Lg std=%.17Lg min=%.17Lg max=%.17Lg",
+                                        ms.id, dt_name[ms.dtype], L, (unsigned long long) c.off, k, (long long) rel, (unsigned long long) step, e4[0], e4[1], e4[2], e4[3], mean, sd_pop, mn, mx); break; }
+                    }
+                }
+            }
+        }
+        // ---- annotations
+        {
+            const std::vector<size_t> &lst = ds.data_chunks[2];
+            if (lst.size() != ms.annos.size()) cerr(E, "content_annotations", "signal %d: %zu annotation chunks, %zu written", ms.id, lst.size(), ms.annos.size());
+            for (size_t k = 0; k < lst.size() && k < ms.annos.size(); ++k) {
+                const Chunk &c = d.chunks[lst[k]]; const uint8_t *p = b + c.payload_off; const MAnno &a = ms.annos[k];
+                if (!c.payload_ok || c.plen < 28) continue;
+                int64_t t = (int64_t) rd64(p); uint32_t ysz[2]; memcpy(ysz, p + 20, 8);
+                bool ok = t == a.t && p[16] == a.at && p[17] == a.st && p[18] == a.grp && ysz[0] == a.ybits && ysz[1] == a.data.size() && c.plen >= 28 + a.data.size() && memcmp(p + 28, a.data.data(), a.data.size()) == 0;
+                if (rd32(p + 8) != 1) ok = false;
+                if (!ok) { cerr(E, "content_annotations", "signal %d annotation %zu @%llu differs from what was written (t=%lld vs %lld)", ms.id, k, (unsigned long long) c.off, (long long) t, (long long) a.t); break; }
+            }
+        }
+        // ---- utc
+        if (ms.sigtype == 0) {
+            const std::vector<size_t> &lst = ds.data_chunks[3];
+            if (lst.size() != ms.utcs.size()) cerr(E, "content_utc", "signal %d: %zu utc chunks, %zu written", ms.id, lst.size(), ms.utcs.size());
+            for (size_t k = 0; k < lst.size() && k < ms.utcs.size(); ++k) {
+                const Chunk &c = d.chunks[lst[k]]; const uint8_t *p = b + c.payload_off;
+                if (!c.payload_ok || c.plen != 24) continue;
+                if ((int64_t) rd64(p) != ms.utcs[k].id || (int64_t) rd64(p + 16) != ms.utcs[k].utc) { cerr(E, "content_utc", "signal %d utc entry %zu differs", ms.id, k); break; }
+            }
+            // level-1 summaries list every entry again
+            size_t k = 0;
+            for (size_t sc : ds.levels[3][1].summary_chunks) {
+                const Chunk &c = d.chunks[sc]; const uint8_t *p = b + c.payload_off;
+                if (!c.payload_ok || c.plen != 16 + 16ull * c.entries) continue;
+                for (uint32_t i = 0; i < c.entries; ++i, ++k) {
+                    if (k >= ms.utcs.size() || (int64_t) rd64(p + 16 + 16 * i) != ms.utcs[k].id || (int64_t) rd64(p + 24 + 16 * i) != ms.utcs[k].utc) { cerr(E, "content_utc", "signal %d utc summary entry %zu differs", ms.id, k); k = (size_t) -2; break; }
+                }
+                if (k == (size_t) -2) break;
+            }
+            if (k != (size_t) -2 && d.closed && k != ms.utcs.size()) cerr(E, "content_utc", "signal %d: level-1 utc summaries hold %zu entries, %zu written", ms.id, k, ms.utcs.size());
+        }
+    }
+    // ---- user data
+    if (d.users.size() != m.users.size()) cerr(E, "content_user_data", "%zu user data chunks, %zu written", d.users.size(), m.users.size());
+    for (size_t k = 0; k < d.users.size() && k < m.users.size(); ++k)
+        if (d.users[k].meta != m.users[k].meta || d.users[k].st != m.users[k].st || d.users[k].data != m.users[k].data) { cerr(E, "content_user_data", "user data item %zu differs", k); break; }
+}
+} // namespace specdec
